@@ -14,6 +14,13 @@
 //     hflush,<path>,<0|1>       the same, but from now on the Keep stub holds every PutB back (the writes are
 //                               "in flight") while the following ops run
 //     release                   let the held writes finish (in arrival order) and wait for quiescence
+//     hmarshal,<script>         MarshalManifest(".") under the given failure script (same syntax as keep; the script
+//                               ends with the op) while the stub decides every PutB on arrival: a failing write
+//                               returns at once, a successful one stays in flight. A save must not return while a
+//                               write it started is in flight, so the driver lets the held writes go as soon as
+//                               the save is seen waiting (no stub activity for 100 ms) and waits for it. If the
+//                               save returns although writes are still in flight, they stay in flight while the
+//                               following ops run, until `release`.
 //     marshal                   MarshalManifest(".")
 //     sync                      Sync() (the manifest text is the one handed to the API stub)
 //     shapes                    segment shapes of every file: s=:<hexpath>=Z<size>/<seg+seg..>|...:<store> (seg = m<len>[!]
@@ -62,6 +69,27 @@ type verifC09Keep struct {
 	calls  int
 	fails  int
 	gate   chan struct{} // non-nil: PutB calls wait here until it is closed ("hold")
+	early  bool          // while holding: the outcome of a PutB is decided on arrival; failures return at once
+	parked int           // successful writes waiting at the gate in early mode
+	last   time.Time     // last arrival or return at the stub in early mode
+}
+
+// holdEarly: from now on every PutB is counted and decided when it arrives; a failing one returns
+// immediately, a successful one waits until release.
+func (k *verifC09Keep) holdEarly() {
+	k.mtx.Lock()
+	defer k.mtx.Unlock()
+	if k.gate == nil {
+		k.gate = make(chan struct{})
+	}
+	k.early = true
+	k.last = time.Now()
+}
+
+func (k *verifC09Keep) parkedNow() (int, time.Duration) {
+	k.mtx.Lock()
+	defer k.mtx.Unlock()
+	return k.parked, time.Since(k.last)
 }
 
 func (k *verifC09Keep) hold() {
@@ -79,6 +107,7 @@ func (k *verifC09Keep) release() {
 		close(k.gate)
 		k.gate = nil
 	}
+	k.early = false
 }
 
 func (k *verifC09Keep) ReadAt(locator string, p []byte, off int) (int, error) {
@@ -102,6 +131,29 @@ func (k *verifC09Keep) PutB(p []byte) (string, int, error) {
 	loc := fmt.Sprintf("%x+%d", md5.Sum(buf), len(buf))
 	k.mtx.Lock()
 	gate := k.gate
+	if gate != nil && k.early {
+		k.last = time.Now()
+		k.calls++
+		fail := k.dflt
+		if len(k.bits) > 0 {
+			fail = k.bits[0]
+			k.bits = k.bits[1:]
+		}
+		if fail {
+			k.fails++
+			k.mtx.Unlock()
+			return "", 0, errors.New(verifC09Injected)
+		}
+		k.parked++
+		k.mtx.Unlock()
+		<-gate
+		k.mtx.Lock()
+		k.parked--
+		k.last = time.Now()
+		k.blocks[loc[:32]] = buf
+		k.mtx.Unlock()
+		return loc, 1, nil
+	}
 	k.mtx.Unlock()
 	if gate != nil {
 		<-gate
@@ -400,6 +452,73 @@ func (st *verifC09State) save(viaSync bool) string {
 		txt, err = st.fs.MarshalManifest(".")
 	}
 	st.quiesce()
+	return st.saveResult(txt, err)
+}
+
+// gatedSave: see hmarshal in the header comment.
+func (st *verifC09State) gatedSave(bits []bool, dflt bool) string {
+	if st.held {
+		st.kc.release()
+		st.held = false
+	}
+	st.quiesce()
+	st.kc.mtx.Lock()
+	st.kc.calls, st.kc.fails = 0, 0
+	st.kc.bits, st.kc.dflt = bits, dflt
+	st.kc.mtx.Unlock()
+	st.kc.holdEarly()
+	type result struct {
+		txt string
+		err error
+		pan string
+	}
+	ch := make(chan result, 1)
+	go func() {
+		defer func() {
+			if r := recover(); r != nil {
+				ch <- result{pan: strings.Join(strings.Fields(fmt.Sprintf("panic %v", r)), " ")}
+			}
+		}()
+		txt, err := st.fs.MarshalManifest(".")
+		ch <- result{txt: txt, err: err}
+	}()
+	var r result
+	inFlight := 0
+	tick := time.NewTicker(2 * time.Millisecond)
+	defer tick.Stop()
+wait:
+	for {
+		select {
+		case r = <-ch:
+			inFlight, _ = st.kc.parkedNow()
+			break wait
+		case <-tick.C:
+			if n, idle := st.kc.parkedNow(); n > 0 && idle > 100*time.Millisecond {
+				// the save is waiting for the writes it started, as it must: let them finish
+				st.kc.release()
+				r = <-ch
+				break wait
+			}
+		}
+	}
+	st.kc.mtx.Lock()
+	st.kc.bits, st.kc.dflt = nil, false
+	st.kc.mtx.Unlock()
+	if r.pan != "" {
+		st.kc.release()
+		return r.pan
+	}
+	if inFlight > 0 {
+		// the save has returned although Keep writes it started are still in flight: they stay in flight
+		st.held = true
+	} else {
+		st.kc.release()
+		st.quiesce()
+	}
+	return st.saveResult(r.txt, r.err)
+}
+
+func (st *verifC09State) saveResult(txt string, err error) string {
 	st.kc.mtx.Lock()
 	calls, fails := st.kc.calls, st.kc.fails
 	st.kc.mtx.Unlock()
@@ -565,6 +684,12 @@ func (st *verifC09State) op(op string) string {
 		return "s=:" + strings.Join(out, "|") + ":" + st.kc.dump()
 	case a[0] == "marshal" && len(a) == 1:
 		return st.save(false)
+	case a[0] == "hmarshal" && len(a) == 2:
+		bits, dflt, ok := verifC09Script(a[1])
+		if !ok {
+			return "bad-op"
+		}
+		return st.gatedSave(bits, dflt)
 	case a[0] == "sync" && len(a) == 1:
 		return st.save(true)
 	case a[0] == "keep" && len(a) == 2:
@@ -675,8 +800,17 @@ func verifC09Case(line string) (out string) {
 		var r string
 		select {
 		case r = <-ch:
-		case <-time.After(3 * verifC09Patience):
-			r = "hang"
+		case <-time.After(2 * time.Second):
+			// With Keep writes held in flight an op may legitimately wait for a write slot: that is
+			// throttling, not a hang. Let the held writes go and keep waiting.
+			if st.held {
+				kc.release()
+			}
+			select {
+			case r = <-ch:
+			case <-time.After(3 * verifC09Patience):
+				r = "hang"
+			}
 		}
 		if r == "bad-op" {
 			kc.release()
